@@ -440,6 +440,11 @@ func mainSearch(t *testing.T, h Harness, out string) {
 		if detlog != nil {
 			fmt.Fprintf(detlog, "%d %s %d\n", ds, r.LogHash(), r.Events)
 		}
+		if os.Getenv("VERIF_DUMPLOG") != "" {
+			for _, l := range r.Log() {
+				fmt.Println(l)
+			}
+		}
 		hh := hash64(r.LogHash())
 		if len(r.caseHashes) > 0 {
 			for ch, nt := range r.caseHashes {
